@@ -126,7 +126,7 @@ def inject(rng, t, toks):
     if kind == "trailing":
         # any byte that is not JSON whitespace is "trailing non-whitespace" (VT, FF, NBSP, DEL ... included)
         if rng.random() < 0.5:
-            b = rng.choice([11, 12, 1, 8, 14, 27, 28, 31, 127, 133, 160, 255] + [rng.choice([x for x in range(1, 256) if x not in (9, 10, 13, 32)])])
+            b = rng.choice([11, 12, 1, 8, 14, 27, 28, 31, 127, 133, 160, 255] + [rng.choice([x for x in range(1, 256) if x not in (9, 10, 13, 32, 47)])])   # '/' opens a comment in default mode: not a trailing byte
             gap = rng.choice([b"", b" ", b"\n"])
             if gap == b"" and toks and toks[-1][0] == "num" and bytes([b]) in b"0123456789.eE+-":
                 return None      # glued to a number such a byte continues the number: not a trailing byte
